@@ -97,25 +97,48 @@ def strip_comments(src):
     return ''.join(out)
 
 
-def hygiene_scan():
-    """Comment-aware scan of lean/ for forbidden constructs. Returns list of hits."""
-    hits = []
-    for root, _, files in os.walk(LEAN):
-        if '.lake' in root or '.audit' in root:
+def module_closure(modules):
+    """files of the PtnModel modules reachable (through `import PtnModel.…`) from the given modules, plus the driver"""
+    seen, todo = set(), list(modules) + ['DriverMain']
+    while todo:
+        m = todo.pop()
+        if m in seen:
             continue
-        for fn in files:
-            if not fn.endswith('.lean'):
+        seen.add(m)
+        p = os.path.join(LEAN, *m.split('.')) + '.lean'
+        if not os.path.exists(p):
+            continue
+        for line in open(p):
+            mm = re.match(r'\s*import\s+(PtnModel[\w.]*)', line)
+            if mm:
+                todo.append(mm.group(1))
+    return sorted(seen)
+
+
+def hygiene_scan(modules=None):
+    """Comment-aware scan for forbidden constructs in every file the property's modules depend on (and the driver).
+    `#print axioms` additionally exposes any sorryAx / extra axiom in the obligations themselves."""
+    hits = []
+    files = []
+    if modules is None:
+        for root, _, fs in os.walk(LEAN):
+            if '.lake' in root or '.audit' in root:
                 continue
-            p = os.path.join(root, fn)
-            rel = os.path.relpath(p, LEAN)
-            code = strip_comments(open(p).read())
-            for tok in FORBIDDEN:
-                if tok == 'partial def' and rel == 'DriverMain.lean':
-                    continue
-                if re.search(r'(?<![A-Za-z0-9_.])' + re.escape(tok), code):
-                    hits.append(f'{rel}: {tok.strip()}')
-            if re.search(r'^\s*axiom\s', code, re.M):
-                hits.append(f'{rel}: axiom')
+            files += [os.path.join(root, fn) for fn in fs if fn.endswith('.lean')]
+    else:
+        files = [os.path.join(LEAN, *m.split('.')) + '.lean' for m in module_closure(modules)]
+    for p in files:
+        if not os.path.exists(p):
+            continue
+        rel = os.path.relpath(p, LEAN)
+        code = strip_comments(open(p).read())
+        for tok in FORBIDDEN:
+            if tok == 'partial def' and rel == 'DriverMain.lean':
+                continue
+            if re.search(r'(?<![A-Za-z0-9_.])' + re.escape(tok), code):
+                hits.append(f'{rel}: {tok.strip()}')
+        if re.search(r'^\s*axiom\s', code, re.M):
+            hits.append(f'{rel}: axiom')
     return hits
 
 
@@ -323,7 +346,7 @@ def check_main(pid, prop, tier, seed):
         for r in aud:
             if not r['ok']:
                 broken.append({'kind': 'theorem', 'name': r['name'], 'detail': r.get('error', '')})
-        hyg = hygiene_scan()
+        hyg = hygiene_scan(obl['modules'])
         for h in hyg:
             broken.append({'kind': 'hygiene', 'name': h, 'detail': 'forbidden construct in lean/'})
         lc = None
